@@ -197,6 +197,10 @@ def run(c):
                         c.fail("oracle", "verdict of %s contradicts the documented fact%s" % (
                             r["name"], " for every element of $*xs" if o["shape"] == "list" else ""),
                             input=site, expected=bool(exp), observed=o["verdict"], finding=fid)
+                if o.get("detached") is not None and o["detached"] != o["verdict"]:
+                    c.fail("oracle", "verdict of %s depends on whether the file's bytes can be read back from disk (same source, same name, "
+                           "analysed from memory with nothing saved at its path)" % r["name"], input=site,
+                           expected={"as on the saved file": o["verdict"]}, observed={"in memory": o["detached"]})
                 # K tuple
                 if r["kind"] in ("list", "tail", "stmt", "single", "first", "second", "seq", "pair", "file") and ctor in lifted:
                     shape = {"one": 0, "exprstmt": 1, "stmt": 2, "list": 3}.get(o["shape"])
